@@ -240,7 +240,17 @@ def run(model: Model, rep: Report, tier: str) -> None:
         "round trip beyond these necessary conditions."
     )
     rep.trusted_base = ["Python operator precedence as implemented by ast.parse", "eval() of the printed text against LOCALS"]
-    rep.floors = {"R12.1": 6, "R12.2": 10, "R12.3": 20, "R12.4": 3}
+    rep.floors = {"R12.1": 6, "R12.2": 10, "R12.3": 20, "R12.4": 3, "R12.5": 1}
+    # ------------------------------------------------------------------ R12.5 hoisting of subscripts
+    from ..refcmp import load_reference, run_table
+    from ..setalg import SetAlg
+    load_reference(model, "yvref.c12", "c12_ref.py")
+    PT = ("cls", f"{DSL}.Probability")
+    run_table(model, rep, [("R12.5", f"{DSL}.Probability.to_y0", "probability_text", {"self": PT}, (), "hoisted-subscripts",
+                            "subscripts are written once in front (P[x](Y, Z)) only when every variable of the distribution carries exactly the same "
+                            "subscripts -- same variables AND same values -- and the hoisted text is that common set", {"impl_self_type": PT})],
+              "yvref.c12", lambda m_, prims: (lambda: Evaluator(m_, primitives={f"{DSL}._sort_interventions"} | set(prims), prim_methods={"to_y0"})),
+              SetAlg(), construct=construct, loc=loc)
     pr = Printers(model)
     dsl = model.modules["y0.dsl"]
     classes = {n: model.cls(f"{DSL}.{n}") for n in PRINTED}
